@@ -234,6 +234,17 @@ func fileEdits(fset *token.FileSet, f *ast.File, src []byte, rel string, rules [
 									try = "TryRLock"
 								}
 								s := site(st)
+								if strings.HasSuffix(recv, ".L") && sel.Sel.Name == "Lock" {
+									edits = append(edits, edit{
+										start: off(st.Pos()),
+										end:   off(st.End()),
+										text:  fmt.Sprintf("verifsim.LockLocker(%s, %s)", recv, s),
+									})
+									r.n++
+									replaced = true
+
+									break
+								}
 								edits = append(edits, edit{
 									start: off(st.Pos()),
 									end:   off(st.End()),
